@@ -14,6 +14,9 @@ import (
 // nodeKind classifies a position of a configuration schema.
 type nodeKind int
 
+// listElem is the pseudo key of "the single element of the list at the previous key".
+const listElem = "[]"
+
 const (
 	kStruct  nodeKind = iota // struct-typed node (keys are fixed by the struct)
 	kLeaf                    // settable leaf (scalar, text-unmarshaled type, []string, string map)
@@ -32,6 +35,7 @@ type schemaNode struct {
 	OwnUnm   bool         // this struct node's own type implements confmap.Unmarshaler
 	Squashed bool         // leaf/struct reached through at least one ,squash embedding
 	OmitEmpt bool         // leaf field carries omitempty
+	ListElem bool         // struct node standing for the element of a list of structs (Path ends in listElem)
 	Why      string       // for kSkipped: reason
 
 	Parent   *schemaNode   // nearest enclosing struct node (nil for the root)
@@ -213,6 +217,14 @@ func walkStruct(t reflect.Type, path []string, underOpt int, custom, squashed bo
 			n.Custom = custom || n.OwnUnm
 			*out = append(*out, n)
 			walkStruct(ft, p, uo, n.Custom, false, out, seen)
+			continue
+		case !opt && ft.Kind() == reflect.Slice && ft.Elem().Kind() == reflect.Struct && !implementsTextUnmarshaler(ft.Elem()):
+			// a list of structs: the list itself is not written, but its element is a
+			// struct-typed position where an unknown key can be placed
+			n.Kind, n.Why = kSkipped, "slice of "+ft.Elem().String()
+			*out = append(*out, n)
+			*out = append(*out, &schemaNode{Path: append(append([]string{}, p...), listElem), Kind: kStruct, Type: ft.Elem(), UnderOpt: uo,
+				Custom: custom || implementsUnmarshaler(ft.Elem()), OwnUnm: implementsUnmarshaler(ft.Elem()), ListElem: true})
 			continue
 		default:
 			if ok, why := leafable(ft); ok {
